@@ -2,9 +2,59 @@ pub mod raw;
 pub mod clocks;
 pub mod sem;
 
-use crate::clock::ClockScript;
+use crate::clock::{ClockScript, NS};
 use crate::prng::Rng;
-use crate::trace::{Event, Op};
+use crate::trace::{AdminOp, Event, InnerStep, Line, Op, ResultSpec, RuleSpec, ADMIN};
+
+/// the keyword of the rule the model-judged checks register for scheduling steps inside evaluations
+pub const NEST_KW: &str = "zork";
+
+/// Scheduling inside evaluations for the model-judged checks (a fifth of the runs): one always-accepting
+/// rule `zork {NUMBER:n}` is registered up front (en and tr); some steps get a line that reaches it, and
+/// while its callback runs the simulator evaluates ANOTHER text of this trace one-shot on the same
+/// calculator, under its own frozen instant (same, +1 s, just over the next midnight, +366 days). The
+/// outer step runs under a ticking clock (a day or a year per read), so an outer evaluation that lost its
+/// reading of the clock to the inner one sees another date. Outer and inner lines are judged by the models
+/// at their own instants.
+pub fn nest_variants(r: &mut Rng, events: &mut Vec<Event>) {
+    if !r.chance(1, 5) || events.is_empty() { return; }
+    let t0 = events[0].clock.base();
+    let rule = |lang: &str| Event { actor: ADMIN, op: Op::Admin(AdminOp::AddRule { lang: lang.to_string(), rule: RuleSpec { id: 900, name: "nestrule".into(), patterns: vec![format!("{} {{NUMBER:n}}", NEST_KW)], result: ResultSpec::Number(7.0), decline_num: 0, decline_den: 0, unwind_den: 0 } }), clock: ClockScript::Frozen { t: t0 } };
+    // texts of this trace that can be evaluated one-shot inside a callback
+    let mut lang_of: std::collections::BTreeMap<u8, String> = std::collections::BTreeMap::new();
+    let mut donors: Vec<(String, crate::trace::TextSpec)> = Vec::new();
+    for e in events.iter() {
+        match &e.op {
+            Op::SessionNew { lang } | Op::SessionLang { lang } => { lang_of.insert(e.actor, lang.clone()); }
+            Op::Execute { lang, text } if !text.lines.is_empty() => donors.push((lang.clone(), text.clone())),
+            Op::SessionText { text } if !text.lines.is_empty() => donors.push((lang_of.get(&e.actor).cloned().unwrap_or_else(|| "en".into()), text.clone())),
+            _ => {}
+        }
+    }
+    if donors.is_empty() { return; }
+    let mut out: Vec<Event> = vec![rule("en"), rule("tr")];
+    for ev in events.drain(..) {
+        let eligible = ev.clock.is_frozen() && matches!(&ev.op, Op::Execute { .. } | Op::SessionText { .. });
+        if !eligible || !r.chance(1, 3) { out.push(ev); continue; }
+        let t = ev.clock.base();
+        let mut op = ev.op.clone();
+        if let Op::Execute { text, .. } | Op::SessionText { text } = &mut op {
+            let at = r.usize(text.lines.len() + 1);
+            text.lines.insert(at, Line::Raw(format!("{} {}", NEST_KW, r.below(50))));
+            text.crlf.insert(at.min(text.crlf.len()), false);
+        }
+        let (dl, dtx) = r.pick(&donors).clone();
+        let dt: i128 = match r.below(5) { 0 | 1 => 0, 2 => NS, 3 => (86400 * NS - t.rem_euclid(86400 * NS)) + NS, _ => 366 * 86400 * NS };
+        // stay inside the calendar the models cover
+        let dt = crate::gen::clocks::clamp_instant(t + dt) - t;
+        let inner = vec![InnerStep { at_call: 1, actor: 120, session: false, lang: dl, text: dtx, dt }];
+        // a one-shot outer step runs under a ticking clock (it can be re-evaluated for the atomicity oracle);
+        // a session step under a frozen one
+        let clock = if matches!(op, Op::Execute { .. }) { ClockScript::Tick { start: t, step: *r.pick(&[86400 * NS, 366 * 86400 * NS]) } } else { ClockScript::Frozen { t } };
+        out.push(Event { actor: ev.actor, op: Op::Nested { outer: Box::new(op), inner }, clock });
+    }
+    *events = out;
+}
 
 /// Session histories the generators of the individual checks do not produce by themselves:
 ///  * the session is evaluated AGAIN without a new text (only after one-line texts: the
